@@ -166,7 +166,16 @@ func parseVal(s string, pos *int) *VNode {
 
 // ---------- reflection: value tree -> generated Go value ----------
 
-func fieldByID(rt reflect.Type, id int) (int, bool) {
+// fieldByID finds the Go field of thrift field `id`: by struct tag, or (the `slim` generator option
+// emits no tags) by the emitted field name = the IDL name with its first letter upper-cased (the
+// harness generates names without underscores).
+func fieldByID(rt reflect.Type, id int, name string) (int, bool) {
+	if name != "" {
+		want := strings.ToUpper(name[:1]) + name[1:]
+		if f, ok := rt.FieldByName(want); ok && f.Tag.Get("thrift") == "" {
+			return f.Index[0], true
+		}
+	}
 	for i := 0; i < rt.NumField(); i++ {
 		tag := rt.Field(i).Tag.Get("thrift")
 		p := strings.Split(tag, ",")
@@ -240,7 +249,7 @@ func assign(d *Defs, rv reflect.Value, t *Ty, v *VNode) {
 			if !ok {
 				continue
 			}
-			idx, ok := fieldByID(target.Type(), f.ID)
+			idx, ok := fieldByID(target.Type(), f.ID, f.Name)
 			if !ok {
 				panic(fmt.Sprintf("generated struct %s has no field with thrift id %d", target.Type(), f.ID))
 			}
@@ -305,7 +314,7 @@ func dump(d *Defs, rv reflect.Value, t *Ty) string {
 		fs := append([]Field{}, sd.Fields...)
 		sort.Slice(fs, func(i, j int) bool { return fs[i].ID < fs[j].ID })
 		for _, f := range fs {
-			idx, ok := fieldByID(rv.Type(), f.ID)
+			idx, ok := fieldByID(rv.Type(), f.ID, f.Name)
 			if !ok {
 				b.WriteString(fmt.Sprintf("%d=?", f.ID))
 				continue
